@@ -93,6 +93,8 @@ def gen_session(rng, tier, for_crash=False):
             title = title + "\n"
         if rng.random() < 0.15:
             title = str(rng.randint(0, 500))           # a title that looks like an atom count
+        elif rng.random() < 0.04:
+            title = rng.choice([" ", "\t", "   "])     # blank but not empty
     box = None
     kind = rng.choice(["none", "vec", "diag", "tric", "tric", "vec"])
     if kind == "vec":
